@@ -994,8 +994,6 @@ func checkYAMLIn(c yinCase) string {
 	return ""
 }
 
-const classYAMLInZero = "C12/yaml-in-leading-zero"
-
 // genYAMLNum draws one spelling of the YAML 1.2 core-schema number grammar.
 func genYAMLNum(t *rapid.T) string {
 	digits := func(label string, min, max int) string {
@@ -1016,18 +1014,22 @@ func genYAMLNum(t *rapid.T) string {
 	}
 	form := rapid.IntRange(0, 4).Draw(t, "form")
 	zeros := ""
-	if form != 1 && rapid.IntRange(0, 5).Draw(t, "leadzero") == 0 {
-		if rec.KnownClass(classYAMLInZero) {
-			rec.Excluded(classYAMLInZero)
-		} else {
-			zeros = strings.Repeat("0", rapid.IntRange(1, 3).Draw(t, "zeros"))
-		}
+	if form != 1 && rapid.IntRange(0, 4).Draw(t, "leadzero") == 0 {
+		zeros = strings.Repeat("0", rapid.IntRange(1, 3).Draw(t, "zeros"))
 	}
+	octalLike := false
 	switch form {
 	case 0: // integer
 		ip := intPart()
 		if zeros != "" && !strings.ContainsAny(ip, "89") {
-			ip += "9" // 0[0-7]+ is an octal number for the YAML library (documented there): not generated
+			// 0[0-7]+ alone is an octal number for the YAML library (documented
+			// there; 010 reads as 8): that spelling is not generated, the digits
+			// get a 9 or an exponent so that the decimal reading applies
+			if rapid.Bool().Draw(t, "nine") {
+				ip += "9"
+			} else {
+				octalLike = true
+			}
 		}
 		sb.WriteString(zeros + ip)
 	case 1: // empty integer part
@@ -1038,8 +1040,8 @@ func genYAMLNum(t *rapid.T) string {
 		sb.WriteString(zeros + intPart() + "." + digits("frac", 1, rapid.SampledFrom([]int{1, 3, 17, 30}).Draw(t, "fraclen")))
 	}
 	withExp := rapid.IntRange(0, 2).Draw(t, "exp") == 0
-	if zeros != "" && form == 0 {
-		withExp = true // keeps the spelling out of the integer (octal) rule
+	if octalLike {
+		withExp = true
 	}
 	if withExp {
 		sb.WriteString(rapid.SampledFrom([]string{"e", "E"}).Draw(t, "e"))
@@ -2460,6 +2462,9 @@ func TestC12(t *testing.T) {
 				}
 				if m, _, _ := strings.Cut(strings.ToLower(w.N), "e"); strings.HasSuffix(m, ".") {
 					rec.Class("yaml-in/bare-point")
+				}
+				if m := strings.TrimLeft(w.N, "+-"); len(m) > 1 && m[0] == '0' && m[1] >= '0' && m[1] <= '9' {
+					rec.Class("yaml-in/leading-zero")
 				}
 				if yamlNum.MatchString(w.N) && !numLit.MatchString(w.N) {
 					rec.Class("yaml-in/not-json-spelling")
